@@ -27,7 +27,7 @@ enum OpKind : uint8_t
     // composite single-vector operations that use a temporary second vector (C18/C09 style checks in hist mode)
     O_TCPY,  // tcpy(t): copy construct a temporary from t, compare, destroy
     O_TCPA,  // tcpa(t,k): copy assign t into a temporary fresh vector of capacity k, compare, destroy
-    O_TSWP,  // tswp(t): swap with a fresh empty temporary (same arena); t becomes the fresh one
+    O_TSWP,  // tswp(t,alt): swap with a fresh empty temporary (same arena; alt=1: with different fixed sizes) and back
     O_TCMP,  // tcmp(t): == and < against a temporary copy and against a fresh empty vector
     // references / iterators (C11)
     O_RAR,   // rar(t,i,j,form): ref_i = ref_j ; form 0 lvalue ref, 1 const_reference, 2 rvalue mutable ref (move)
@@ -55,7 +55,7 @@ enum OpKind : uint8_t
 inline const char* const OP_NAMES[O_KINDS] = {"new", "def",  "eb",   "pb",   "er",   "err", "cl",  "rs",  "cc",  "ca",   "mc",   "ma",
                                               "sw",  "des",  "tcpy", "tcpa", "tswp", "tcmp", "rar", "rsw", "rot", "rev",  "swr",  "wp",
                                               "xr",  "xcc",  "xmc",  "xca",  "xma",  "xsw", "xar", "rax", "xmut", "vmut", "xdes"};
-inline const int OP_ARITY[O_KINDS] = {6, 1, 3, 1, 2, 3, 1, 4, 2, 2, 2, 2, 2, 1, 1, 2, 1, 1, 4, 4, 4, 3, 4, 3, 5, 3, 3, 2, 2, 2, 4, 4, 1, 2, 1};
+inline const int OP_ARITY[O_KINDS] = {6, 1, 3, 1, 2, 3, 1, 4, 2, 2, 2, 2, 2, 1, 1, 2, 2, 1, 4, 4, 4, 3, 4, 3, 5, 3, 3, 2, 2, 2, 4, 4, 1, 2, 1};
 
 struct Op
 {
